@@ -66,8 +66,16 @@ NoEvt == [ev |-> "None", n |-> 0, a |-> [x |-> 0], rk |-> "ok", hr0 |-> FALSE, h
 NoPre == [up |-> FALSE, node |-> NoNode, stor |-> NoStor, handedTo |-> 0]
 NoRdi == [number |-> 0, hasSS |-> FALSE, lead |-> 0, role |-> "F", hasHS |-> FALSE, hs |-> EmptyHS]
 
+(* `l` is the last consumed line (0 at the start).  A linear trace is consumed in order; a merged replay tree
+   (simrun replaymc --tree) carries for every line the list `kids` of the lines that follow it, and TLC walks the
+   tree, so an event shared by many schedules is evaluated once. *)
+Kids(k) ==
+    IF k = 0 THEN {1}
+    ELSE IF "kids" \in DOMAIN Rec[k] THEN Range(Rec[k].kids)
+    ELSE IF k < Len(Rec) THEN {k + 1} ELSE {}
+
 TraceInit ==
-    /\ l = 1 /\ run = 0
+    /\ l = 0 /\ run = 0
     /\ node = [j \in Nodes |-> NoNode]
     /\ up = [j \in Nodes |-> FALSE]
     /\ stor = [j \in Nodes |-> NoStor]
@@ -156,9 +164,9 @@ Drift(e) ==
                  \cup (IF e.ev = "Ready" THEN RdDiff(x.rd, ev.rd) ELSE {})
                  \cup (IF e.ev \in {"Advance", "AdvanceAppend"} THEN LightDiff(x.light, ev.rd) ELSE {})
 
-ReportDrift(e) ==
+ReportDrift(e, c) ==
     IF ~CheckConformance THEN TRUE
-    ELSE LET d == Drift(e) IN IF d = {} THEN TRUE ELSE PrintT(<<"DRIFT", e.ev, d, l, run, e.seq>>)
+    ELSE LET d == Drift(e) IN IF d = {} THEN TRUE ELSE PrintT(<<"DRIFT", e.ev, d, c, IF "run" \in DOMAIN e THEN e.run ELSE run, e.seq>>)
 
 -----------------------------------------------------------------------------
 (* (2) adoption of the implementation state, ghost update, property evaluation *)
@@ -184,9 +192,9 @@ NetEvent(e) ==
              THEN [gh EXCEPT !.lease = [on |-> TRUE, leader |-> e.a.leader, members |-> Range(e.a.members), term |-> e.a.term]]
              ELSE gh
 
-NodeEvent(e) ==
+NodeEvent(e, c) ==
     LET j == e.n IN
-    /\ ReportDrift(e)
+    /\ ReportDrift(e, c)
     /\ node' = [node EXCEPT ![j] = IF e.up THEN NodeOf(e.s) ELSE @]
     /\ up' = [up EXCEPT ![j] = e.up]
     /\ stor' = IF e.full THEN [stor EXCEPT ![j] = StorOf(e.st)] ELSE stor
@@ -204,21 +212,21 @@ NodeEvent(e) ==
 
 Report ==
     IF Violations = {} THEN TRUE
-    ELSE PrintT(<<"VIOLATION", Violations, l - 1, run, Rec[l - 1].seq>>)
+    ELSE PrintT(<<"VIOLATION", Violations, l, IF "run" \in DOMAIN Rec[l] THEN Rec[l].run ELSE run, Rec[l].seq>>)
 
 TraceNext ==
-    /\ l <= Len(Rec)
-    /\ l' = l + 1
-    /\ LET e == Rec[l]
-       IN IF e.ev = "Reset" THEN ResetAll(e)
-          ELSE IF e.n = 0 THEN NetEvent(e)
-          ELSE NodeEvent(e)
-    /\ Report'
+    \E c \in Kids(l) :
+        /\ l' = c
+        /\ LET e == Rec[c]
+           IN IF e.ev = "Reset" THEN ResetAll(e)
+              ELSE IF e.n = 0 THEN NetEvent(e)
+              ELSE NodeEvent(e, c)
+        /\ Report'
 
 TraceSpec == TraceInit /\ [][TraceNext]_tvars
 
-(* acceptance: every line was consumed *)
-TraceDone == TLCGet("stats").diameter = Len(Rec) + 1
-                \/ PrintT(<<"TRACE-INCOMPLETE", TLCGet("stats").diameter, Len(Rec)>>)
+(* acceptance: every line was consumed (one state per line plus the initial state) *)
+TraceDone == TLCGet("stats").distinct = Len(Rec) + 1
+                \/ PrintT(<<"TRACE-INCOMPLETE", TLCGet("stats").distinct, Len(Rec)>>)
 
 =============================================================================
